@@ -1,9 +1,14 @@
 import Rbgp.Policy.Codec
 import Rbgp.Policy.Model
+import Rbgp.Policy.Spec
 import Rbgp.Policy.Regex
 import Rbgp.Policy.Wf
 namespace Rbgp.C14
 open Rbgp Rbgp.Term Rbgp.Policy Rbgp.Policy.Codec
+
+def verdictStr : Spec.Verdict → String
+  | .ok => "ok"
+  | .fail i j c => s!"fail step={i} idx={j} clause={c}"
 
 /-- mode `model`: case ↦ observation of the model (driver regex engine);
     mode `oracle`: case TAB observation ↦ verdict of the C14 reference checker. -/
@@ -13,6 +18,19 @@ def handler (mode : String) (line : String) : String :=
       match (parse line).bind caseOf? with
       | some c => if Wf.wfCase c then toStr (obsT c.probes (run Regex.env c)) else "(bad-case)"
       | none => "(bad-case)"
+  | "oracle" =>
+      match parseMany line with
+      | some [ct, ot] =>
+          match caseOf? ct with
+          | some c =>
+              if !Wf.wfCase c then "(bad-case)"
+              else if ot == .list [.atom "bad-case"] then "(bad-case)"
+              else
+                match obsOf? c.probes ot with
+                | some o => verdictStr (Spec.check Regex.env c o)
+                | none => "fail step=0 idx=0 clause=unparsable-observation"
+          | none => "(bad-case)"
+      | _ => "(bad-line)"
   | _ => "(bad-mode)"
 
 end Rbgp.C14
